@@ -80,15 +80,18 @@ func (o *dbObserver) Balance(addr string, t int) uint64 {
 
 var totalsQuery = func() string {
 	var cols []string
+	// per asset: the column sum and the row-id weighted sum (so that value moving
+	// between two addresses shows too). Rows with all-zero balances do not count:
+	// the daemon creates such rows for zero-amount operations.
 	for t := 1; t < NT; t++ {
-		cols = append(cols, fmt.Sprintf("TOTAL(%s_balance)", Col(t)))
+		cols = append(cols, fmt.Sprintf("TOTAL(%[1]s_balance), TOTAL(1.0*%[1]s_balance*id)", Col(t)))
 	}
-	return "SELECT COUNT(*), " + strings.Join(cols, ", ") + " FROM pn_addresses"
+	return "SELECT " + strings.Join(cols, ", ") + " FROM pn_addresses"
 }()
 
 func totalsRow(db *sql.DB) string {
-	vals := make([]interface{}, NT)
-	ptrs := make([]interface{}, NT)
+	vals := make([]interface{}, 2*(NT-1))
+	ptrs := make([]interface{}, 2*(NT-1))
 	for i := range vals {
 		ptrs[i] = &vals[i]
 	}
